@@ -45,7 +45,8 @@ def run(ctx):
                             "1..65536 (+2^20 for index balancers); sparse/shifted id lists; RoundRobin chunk sizes incl. <1 and start counters at the uint32 wrap; "
                             "LeastBytes size sequences on permuted lists; concurrent multiset cases. distinct = distinct op lines other than `cached`")
     concrete = [d for d in dis if d.get("kind") == "disagreement" and not d["holds_on_impl"]]
-    others = [d for d in dis if d not in concrete]
+    cid = {id(d) for d in concrete}
+    others = [d for d in dis if id(d) not in cid]
     recorded = 0
     for d in concrete[:50]:
         recorded += ctx.violation({"kind": "input", "input": d["op"], "actual": d["impl"], "expected": d["model"],
